@@ -275,3 +275,43 @@ def openpyxl_models():
         'ext:openpyxl.utils.cell.get_column_letter': letter,
         'ext:openpyxl.utils.cell.column_index_from_string': col,
     }
+
+
+# ------------------------------------------------------------------------------------------------------------
+# scipy.optimize.newton without a derivative: the secant iteration of the library (documented algorithm)
+# ------------------------------------------------------------------------------------------------------------
+def scipy_models():
+    def newton(interp, func, x0=None, fprime=None, args=(), tol=1.48e-08, maxiter=50, **kw):
+        if fprime is not None or kw or args:
+            raise Unmodelled('scipy.optimize.newton with a derivative or further options')
+
+        def num(v):
+            if isinstance(v, Rec) and isinstance(v.f.get('value'), (int, float)):
+                v = v.f['value']
+            if isinstance(v, bool) or not isinstance(v, (int, float)):
+                raise Unmodelled(f'scipy.optimize.newton on a non-number {v!r}')
+            return float(v)
+
+        def f(x):
+            return num(interp.invoke(func, [x], {}))
+        p0 = num(x0)
+        eps = 1e-4
+        p1 = p0 * (1 + eps) + (eps if p0 >= 0 else -eps)
+        q0, q1 = f(p0), f(p1)
+        if abs(q1) < abs(q0):
+            p0, p1, q0, q1 = p1, p0, q1, q0
+        for _ in range(int(num(maxiter))):
+            if q1 == q0:
+                return (p1 + p0) / 2.0
+            if abs(q1) > abs(q0):
+                p = (-q0 / q1 * p1 + p0) / (1 - q0 / q1)
+            else:
+                p = (-q1 / q0 * p0 + p1) / (1 - q1 / q0)
+            if abs(p - p1) <= tol:
+                return p
+            p0, q0 = p1, q1
+            p1 = p
+            q1 = f(p1)
+        raise ExcRaised(Ref('builtin:RuntimeError'))
+    newton.wants_interp = True
+    return {'ext:scipy.optimize.newton': newton}
